@@ -117,20 +117,20 @@ def newReq (a : NewArgs) : PRes Req :=
 
 /-- `ParseMBAPHeader` — returns the transaction id -/
 def parseMBAP (s : Slice) : PRes UInt16 :=
-  if s.len < 6 then .err (.tcp 4 0 0 0) else
+  if s.vis.length < 6 then .err (.tcp 4 0 0 0) else
   (s.idx 2).bind fun d2 =>
   (s.idx 3).bind fun d3 =>
   if d2 ≠ 0 ∨ d3 ≠ 0 then .err (.tcp 4 0 0 0) else
   (s.rd16 4).bind fun pduLen =>
   if pduLen = 0 then .err (.tcp 4 0 0 0) else
-  if s.len ≠ 6 + pduLen.toNat then .err (.tcp 4 0 0 0) else
+  if s.vis.length ≠ 6 + pduLen.toNat then .err (.tcp 4 0 0 0) else
   s.rd16 0
 
 /-- `ParseRead{Coils,DiscreteInputs,HoldingRegisters,InputRegisters}RequestTCP` -/
 def parseReadReqTCP (fc : UInt8) (maxQ : UInt16) (s : Slice) : PRes (UInt16 × Req) :=
   (parseMBAP s).bind fun tid =>
   (s.idx 6).bind fun unit =>
-  if s.len < 12 then .err (.tcp 3 tid unit fc) else
+  if s.vis.length < 12 then .err (.tcp 3 tid unit fc) else
   (s.idx 7).bind fun f =>
   if f ≠ fc then .err (.tcp 1 tid unit fc) else
   (s.rd16 10).bind fun q =>
@@ -140,7 +140,7 @@ def parseReadReqTCP (fc : UInt8) (maxQ : UInt16) (s : Slice) : PRes (UInt16 × R
 
 /-- `ParseRead*RequestRTU` -/
 def parseReadReqRTU (fc : UInt8) (maxQ : UInt16) (s : Slice) : PRes Req :=
-  if s.len ≠ 8 ∧ s.len ≠ 6 then .err (.rtu 4 0 0) else
+  if s.vis.length ≠ 8 ∧ s.vis.length ≠ 6 then .err (.rtu 4 0 0) else
   (s.idx 0).bind fun unit =>
   (s.idx 1).bind fun f =>
   if f ≠ fc then .err (.rtu 1 unit fc) else
@@ -153,7 +153,7 @@ def parseReadReqRTU (fc : UInt8) (maxQ : UInt16) (s : Slice) : PRes Req :=
 def parseWCoilReqTCP (s : Slice) : PRes (UInt16 × Req) :=
   (parseMBAP s).bind fun tid =>
   (s.idx 6).bind fun unit =>
-  if s.len < 12 then .err (.tcp 3 tid unit 5) else
+  if s.vis.length < 12 then .err (.tcp 3 tid unit 5) else
   (s.idx 7).bind fun f =>
   if f ≠ 5 then .err (.tcp 1 tid unit 5) else
   (s.rd16 10).bind fun raw =>
@@ -163,7 +163,7 @@ def parseWCoilReqTCP (s : Slice) : PRes (UInt16 × Req) :=
 
 /-- `ParseWriteSingleCoilRequestRTU` -/
 def parseWCoilReqRTU (s : Slice) : PRes Req :=
-  if s.len ≠ 8 ∧ s.len ≠ 6 then .err (.rtu 4 0 0) else
+  if s.vis.length ≠ 8 ∧ s.vis.length ≠ 6 then .err (.rtu 4 0 0) else
   (s.idx 0).bind fun unit =>
   (s.idx 1).bind fun f =>
   if f ≠ 5 then .err (.rtu 1 unit 5) else
@@ -176,7 +176,7 @@ def parseWCoilReqRTU (s : Slice) : PRes Req :=
 def parseWRegReqTCP (s : Slice) : PRes (UInt16 × Req) :=
   (parseMBAP s).bind fun tid =>
   (s.idx 6).bind fun unit =>
-  if s.len < 12 then .err (.tcp 3 tid unit 6) else
+  if s.vis.length < 12 then .err (.tcp 3 tid unit 6) else
   (s.idx 7).bind fun f =>
   if f ≠ 6 then .err (.tcp 1 tid unit 5) else
   (s.rd16 8).bind fun a =>
@@ -186,7 +186,7 @@ def parseWRegReqTCP (s : Slice) : PRes (UInt16 × Req) :=
 
 /-- `ParseWriteSingleRegisterRequestRTU` -/
 def parseWRegReqRTU (s : Slice) : PRes Req :=
-  if s.len ≠ 8 ∧ s.len ≠ 6 then .err (.rtu 4 0 0) else
+  if s.vis.length ≠ 8 ∧ s.vis.length ≠ 6 then .err (.rtu 4 0 0) else
   (s.idx 0).bind fun unit =>
   (s.idx 1).bind fun f =>
   if f ≠ 6 then .err (.rtu 1 unit 6) else
@@ -203,27 +203,27 @@ def copyOut (s : Slice) (a n : Nat) : PRes Bytes :=
 def parseWCoilsReqTCP (s : Slice) : PRes (UInt16 × Req) :=
   (parseMBAP s).bind fun tid =>
   (s.idx 6).bind fun unit =>
-  if s.len < 13 then .err (.tcp 3 tid unit 15) else
+  if s.vis.length < 13 then .err (.tcp 3 tid unit 15) else
   (s.idx 7).bind fun f =>
   if f ≠ 15 then .err (.tcp 1 tid unit 15) else
   (s.rd16 10).bind fun c =>
   if ¬(c ≥ 1 ∧ c ≤ 1968) then .err (.tcp 3 tid unit 15) else
   (s.idx 12).bind fun bc =>
-  if s.len < 13 + bc.toNat then .err (.tcp 3 tid unit 15) else
+  if s.vis.length < 13 + bc.toNat then .err (.tcp 3 tid unit 15) else
   (copyOut s 13 bc.toNat).bind fun d =>
   (s.rd16 8).bind fun a =>
   .ok (tid, .wcoils unit a c d)
 
 /-- `ParseWriteMultipleCoilsRequestRTU` -/
 def parseWCoilsReqRTU (s : Slice) : PRes Req :=
-  if s.len < 7 then .err (.rtu 4 0 0) else
+  if s.vis.length < 7 then .err (.rtu 4 0 0) else
   (s.idx 0).bind fun unit =>
   (s.idx 1).bind fun f =>
   if f ≠ 15 then .err (.rtu 1 unit 15) else
   (s.rd16 4).bind fun c =>
   if ¬(c ≥ 1 ∧ c ≤ 1968) then .err (.rtu 3 unit 15) else
   (s.idx 6).bind fun bc =>
-  if s.len ≠ 7 + bc.toNat ∧ s.len ≠ 7 + bc.toNat + 2 then .err (.rtu 3 unit 15) else
+  if s.vis.length ≠ 7 + bc.toNat ∧ s.vis.length ≠ 7 + bc.toNat + 2 then .err (.rtu 3 unit 15) else
   (copyOut s 7 bc.toNat).bind fun d =>
   (s.rd16 2).bind fun a =>
   .ok (.wcoils unit a c d)
@@ -232,27 +232,27 @@ def parseWCoilsReqRTU (s : Slice) : PRes Req :=
 def parseWRegsReqTCP (s : Slice) : PRes (UInt16 × Req) :=
   (parseMBAP s).bind fun tid =>
   (s.idx 6).bind fun unit =>
-  if s.len < 13 then .err (.tcp 3 tid unit 16) else
+  if s.vis.length < 13 then .err (.tcp 3 tid unit 16) else
   (s.idx 7).bind fun f =>
   if f ≠ 16 then .err (.tcp 1 tid unit 16) else
   (s.rd16 10).bind fun c =>
   if ¬(c ≥ 1 ∧ c ≤ 123) then .err (.tcp 3 tid unit 16) else
   (s.idx 12).bind fun bc =>
-  if s.len ≠ 13 + bc.toNat then .err (.tcp 3 tid unit 16) else
+  if s.vis.length ≠ 13 + bc.toNat then .err (.tcp 3 tid unit 16) else
   (copyOut s 13 bc.toNat).bind fun d =>
   (s.rd16 8).bind fun a =>
   .ok (tid, .wregs unit a c d)
 
 /-- `ParseWriteMultipleRegistersRequestRTU` -/
 def parseWRegsReqRTU (s : Slice) : PRes Req :=
-  if s.len < 8 then .err (.rtu 4 0 0) else
+  if s.vis.length < 8 then .err (.rtu 4 0 0) else
   (s.idx 0).bind fun unit =>
   (s.idx 1).bind fun f =>
   if f ≠ 16 then .err (.rtu 1 unit 16) else
   (s.rd16 4).bind fun c =>
   if ¬(c ≥ 1 ∧ c ≤ 123) then .err (.rtu 3 unit 16) else
   (s.idx 6).bind fun bc =>
-  if s.len ≠ 7 + bc.toNat ∧ s.len ≠ 7 + bc.toNat + 2 then .err (.rtu 3 unit 16) else
+  if s.vis.length ≠ 7 + bc.toNat ∧ s.vis.length ≠ 7 + bc.toNat + 2 then .err (.rtu 3 unit 16) else
   (copyOut s 7 bc.toNat).bind fun d =>
   (s.rd16 2).bind fun a =>
   .ok (.wregs unit a c d)
@@ -261,14 +261,14 @@ def parseWRegsReqRTU (s : Slice) : PRes Req :=
 def parseSidReqTCP (s : Slice) : PRes (UInt16 × Req) :=
   (parseMBAP s).bind fun tid =>
   (s.idx 6).bind fun unit =>
-  if s.len < 8 then .err (.tcp 3 tid unit 17) else
+  if s.vis.length < 8 then .err (.tcp 3 tid unit 17) else
   (s.idx 7).bind fun f =>
   if f ≠ 17 then .err (.tcp 1 tid unit 17) else
   .ok (tid, .sid unit)
 
 /-- `ParseReadServerIDRequestRTU` -/
 def parseSidReqRTU (s : Slice) : PRes Req :=
-  if s.len ≠ 4 ∧ s.len ≠ 2 then .err (.rtu 4 0 0) else
+  if s.vis.length ≠ 4 ∧ s.vis.length ≠ 2 then .err (.rtu 4 0 0) else
   (s.idx 0).bind fun unit =>
   (s.idx 1).bind fun f =>
   if f ≠ 17 then .err (.rtu 1 unit 17) else
@@ -278,7 +278,7 @@ def parseSidReqRTU (s : Slice) : PRes Req :=
 def parseRWReqTCP (s : Slice) : PRes (UInt16 × Req) :=
   (parseMBAP s).bind fun tid =>
   (s.idx 6).bind fun unit =>
-  if s.len < 17 then .err (.tcp 3 tid unit 23) else
+  if s.vis.length < 17 then .err (.tcp 3 tid unit 23) else
   (s.idx 7).bind fun f =>
   if f ≠ 23 then .err (.tcp 1 tid unit 23) else
   (s.rd16 10).bind fun rq =>
@@ -286,7 +286,7 @@ def parseRWReqTCP (s : Slice) : PRes (UInt16 × Req) :=
   (s.rd16 14).bind fun wq =>
   if ¬(wq ≥ 1 ∧ wq ≤ 121) then .err (.tcp 3 tid unit 23) else
   (s.idx 16).bind fun bc =>
-  if s.len < 17 + bc.toNat then .err (.tcp 3 tid unit 23) else
+  if s.vis.length < 17 + bc.toNat then .err (.tcp 3 tid unit 23) else
   (copyOut s 17 bc.toNat).bind fun d =>
   (s.rd16 8).bind fun ra =>
   (s.rd16 12).bind fun wa =>
@@ -294,7 +294,7 @@ def parseRWReqTCP (s : Slice) : PRes (UInt16 × Req) :=
 
 /-- `ParseReadWriteMultipleRegistersRequestRTU` -/
 def parseRWReqRTU (s : Slice) : PRes Req :=
-  if s.len < 12 then .err (.rtu 4 0 0) else
+  if s.vis.length < 12 then .err (.rtu 4 0 0) else
   (s.idx 0).bind fun unit =>
   (s.idx 1).bind fun f =>
   if f ≠ 23 then .err (.rtu 1 unit 23) else
@@ -303,7 +303,7 @@ def parseRWReqRTU (s : Slice) : PRes Req :=
   (s.rd16 8).bind fun wq =>
   if ¬(wq ≥ 1 ∧ wq ≤ 121) then .err (.rtu 3 unit 23) else
   (s.idx 10).bind fun bc =>
-  if s.len ≠ 11 + bc.toNat ∧ s.len ≠ 11 + bc.toNat + 2 then .err (.rtu 3 unit 23) else
+  if s.vis.length ≠ 11 + bc.toNat ∧ s.vis.length ≠ 11 + bc.toNat + 2 then .err (.rtu 3 unit 23) else
   (copyOut s 11 bc.toNat).bind fun d =>
   (s.rd16 2).bind fun ra =>
   (s.rd16 6).bind fun wa =>
@@ -341,12 +341,12 @@ def parseReqRTUfc (fc : UInt8) (s : Slice) : PRes Req :=
 
 /-- `ParseTCPRequest` -/
 def parseTCPRequest (s : Slice) : PRes (UInt16 × Req) :=
-  if s.len < 8 then .err .tooShortT else
+  if s.vis.length < 8 then .err .tooShortT else
   (s.idx 7).bind fun fc => parseReqTCPfc fc s
 
 /-- `ParseRTURequest` -/
 def parseRTURequest (s : Slice) : PRes Req :=
-  if s.len < 4 then .err .plain else
+  if s.vis.length < 4 then .err .plain else
   (s.idx 1).bind fun fc => parseReqRTUfc fc s
 
 /-- the CRC comparison shared by the `…WithCRC` entry points:
@@ -359,7 +359,7 @@ def crcMatches (v : Bytes) : Bool :=
 
 /-- `ParseRTURequestWithCRC` -/
 def parseRTURequestWithCRC (s : Slice) : PRes Req :=
-  if s.len < 4 then .err .plain else
+  if s.vis.length < 4 then .err .plain else
   if !crcMatches s.vis then .err .badCRC else
   parseRTURequest s
 
